@@ -1,6 +1,6 @@
 """C11 — pure circuits evaluate to the unitary they describe.
 
-Streams: table / user-defined / rotation / ket-bra boxes, scalar boxes of both classes (scalar, sqrt) over every
+Streams: table / user-defined (0-3 qubits; the 0-qubit ones at every position of fixed circuits) / rotation / ket-bra boxes, scalar boxes of both classes (scalar, sqrt) over every
 kind and Python type of data, random circuits (with scalar-rich ones), adjacent twins, calling conventions of
 Circuit.eval / Sum.eval (batches with pure and mixed companions, mixed= flag), rewire.
 
@@ -199,6 +199,8 @@ class Check:
             return self._exact(g[1])
         if k in "SZ":
             return g[1] is not None
+        if k == "P":                # float entry: oracle stream only
+            return False
         return True
 
     # ---- named table against pytket (and the transcription in the model against pytket)
@@ -276,7 +278,8 @@ class Check:
     def circuit_case(self, exact, given=None, twins=0.0, unitary=False, stream="circuit", gateset=None):
         rep = self.rep
         if given is None:
-            gen = QGen(random.Random(self.rng.getrandbits(64)), exact=exact, roots=True, gateset=gateset)
+            gen = QGen(random.Random(self.rng.getrandbits(64)), exact=exact, roots=True, gateset=gateset,
+                       phases0=True)
             n_in, layers = gen.circuit(twins=twins, unitary=unitary)
         else:
             n_in, layers = given
@@ -419,6 +422,49 @@ class Check:
                     self.circuit_case(False, given=(3, [(0, ca, 1), (1, cb, 0), (0, ("D", ca), 1)]),
                                       stream="adjacent-near-phase")
 
+    # ---- user-defined QuantumGates on ZERO qubits (global phases), flagged or not, at every position
+
+    def phase_placements(self, n_float, full=False):
+        """A 0-qubit gate touches no wire: a functor may treat it apart from the gates that do (and then has to
+        honour its dagger flag there too).  Every table gate of CUSTOM0, plain / daggered / twice daggered, at
+        every layer and every offset of two fixed circuits (gates only; ket then gate), and float phases
+        exp(i theta) at random positions of random circuits."""
+        bases = [(2, [(0, ("N", "H"), 1), (0, ("N", "CX"), 0), (1, ("N", "T"), 0)]),
+                 (0, [(0, ("K", (1,)), 0), (0, ("N", "X"), 0)])]
+        for q in qgen.CUSTOM0:
+            for nwrap, wrap in enumerate((lambda g: ("D", g), lambda g: g, lambda g: ("D", ("D", g)))):
+                # quick: the flagged gate for every entry; the plain and the twice-daggered one for one entry each
+                if not full and ((nwrap == 1 and q != "PZ") or (nwrap == 2 and q != "PI")):
+                    continue
+                g = wrap(("Q", q))
+                for n_in, layers in bases:
+                    w = n_in
+                    for k in range(len(layers) + 1):
+                        for l in range(w + 1):
+                            self.rep.count("phase0_placement:layer=%d,left=%d" % (k, l))
+                            self.circuit_case(True, given=(n_in, layers[:k] + [(l, g, w - l)] + layers[k:]),
+                                              stream="phase0-placement")
+                        if k < len(layers):
+                            d, c = arity(layers[k][1])
+                            w = w - d + c
+        for _ in range(n_float):
+            gen = QGen(random.Random(self.rng.getrandbits(64)), exact=False, roots=True, phases0=True)
+            n_in, layers = gen.circuit(depth=gen.rng.randint(1, 4))
+            w, widths = n_in, [n_in]
+            for _, g, _ in layers:
+                d, c = arity(g)
+                w = w - d + c
+                widths.append(w)
+            for _ in range(gen.rng.randint(1, 2)):
+                k = gen.rng.randint(0, len(layers))
+                l = gen.rng.randint(0, widths[k])
+                g = gen.gate0()
+                while g[0] != "D":
+                    g = gen.gate0()
+                layers = layers[:k] + [(l, g, widths[k] - l)] + layers[k:]
+                widths = widths[:k] + [widths[k]] + widths[k:]
+            self.circuit_case(False, given=(n_in, layers), stream="phase0-placement-float")
+
     # ---- scalar boxes of both classes, every kind of data, every Python type of the data
 
     def scalar_boxes(self, n_float):
@@ -491,7 +537,8 @@ class Check:
 
         def pure_member(exact, small=False):
             """`small`: the circuit will be evaluated as a CQ map (doubled: keep it to <= 2 wires, depth <= 2)."""
-            gen = QGen(random.Random(rng.getrandbits(64)), exact=exact, roots=True, max_wires=2 if small else 3)
+            gen = QGen(random.Random(rng.getrandbits(64)), exact=exact, roots=True, max_wires=2 if small else 3,
+                       phases0=True)
             return gen.circuit(depth=gen.rng.randint(1, 2 if small else 5), unitary=(gen.rng.random() < 0.4))
 
         def check_pure(res, n_in, layers, exact, case, where):
@@ -607,7 +654,8 @@ class Check:
             n = rng.randint(1, 2 if small else 3)
             terms, pls = [], []
             for i in range(n_terms):
-                gen = QGen(random.Random(rng.getrandbits(64)), exact=(rng.random() < 0.5), roots=True, max_wires=3)
+                gen = QGen(random.Random(rng.getrandbits(64)), exact=(rng.random() < 0.5), roots=True, max_wires=3,
+                           phases0=True)
                 pls.append(gen.circuit(n_in=n, depth=gen.rng.randint(1, 2 if small else 4), unitary=True))
             try:
                 for i, pl in enumerate(list(pls)):
@@ -712,7 +760,10 @@ class Check:
 def run(tier, seed, replay=None):
     rep = Report(PROP, tier, seed)
     thorough = tier == "thorough"
-    rep.rule = ("(0) user-defined QuantumGate(name, n, array) boxes on 1-3 qubits (products of table gates, "
+    rep.rule = ("(00) user-defined QuantumGates on ZERO qubits (global phases i, zeta, zeta^3, zeta^5, -1; float exp(i theta)), "
+                "plain / daggered / twice daggered: alone, in adjacent pairs, inside every random circuit stream, and at "
+                "every layer and offset of two fixed circuits (phase0-placement); "
+                "(0) user-defined QuantumGate(name, n, array) boxes on 1-3 qubits (products of table gates, "
                 "controlled-H, Toffoli; none symmetric under qubit reversal) with and without dagger flag, "
                 "alone, controlled, and inside the random circuits; pairs of boxes that discopy's == confuses "
                 "(Controlled(g)/Controlled(g.dagger()), box/dagger, (controlled) rotations whose phases agree "
@@ -742,7 +793,8 @@ def run(tier, seed, replay=None):
         "for every well-typed circuit over the gate set (GATES, rotations at phase indices n/8, Controlled(g), "
         "their daggers; kets/bras <= 4 bits and scalars for the dagger) and generically over any commutative "
         "star ring; that discopy's eval IS the ordered product of 1(x)gate(x)1 is C09's functor theorem plus "
-        "the exact correspondence of this run; circuits with other gates (kets/bras > 4 bits, custom arrays) "
+        "the exact correspondence of this run; circuits with other gates (kets/bras > 4 bits, custom arrays on "
+        ">= 1 qubits; 0-qubit custom gates ARE in circuit_dagger's gate set, phase0_dagOK) "
         "are covered by correspondence and the numpy oracle only",
         "rewire_spec is proved by `decide` for all (a, b) with a, b < 4 on one generic 4x4 matrix with 16 "
         "distinct entries, not for a symbolic op",
@@ -813,6 +865,7 @@ def run(tier, seed, replay=None):
         for k in range(150 if not thorough else 1500):
             chk.circuit_case(exact=(k % 2 == 0), stream="scalar-rich-circuit", gateset=scalar_rich)
         chk.adjacent_pairs(3 if not thorough else 25)
+        chk.phase_placements(30 if not thorough else 400, full=thorough)
         # 2b. calling conventions
         chk.eval_conventions(120 if not thorough else 1500, 40 if not thorough else 500)
         # 3. rewire
